@@ -74,7 +74,7 @@ class TailCallOptimization(FunctionPass):
         """Replace tail calls by jumps to the old entry of this function."""
         z = []
         z.append((function.entry, function.arguments))
-        new_entry = ir.Block("new_entry")
+        new_entry = ir.Block(f"{function.name}_new_entry")
         function.add_block(new_entry)
         function.blocks.insert(0, function.blocks.pop())
         old_entry = function.entry
